@@ -94,6 +94,7 @@ def components():
     add('p_atc', lambda i: [('a%d' % i, pos(I(1), 'at', C(1), ref='current-offset'))])
     add('p_sh1', lambda i: [('a%d' % i, pos(I(1), 'shift', C(1)))])
     add('p_shm1', lambda i: [('a%d' % i, pos(I(1), 'shift', C(-1)))])
+    add('p_shm2d', lambda i: [('d%d' % i, pos(D(C(3)), 'shift', C(-2)))])
     add('p_shn', lambda i: [('n%d' % i, I(1)), ('a%d' % i, pos(I(1), 'shift', F('n%d' % i)))])
     add('p_al2', lambda i: [('a%d' % i, pos(I(1), 'aligned', C(2)))])
     add('p_al4i', lambda i: [('a%d' % i, pos(I(2), 'aligned', C(4), ref='innermost-pkt'))])
@@ -114,7 +115,7 @@ COMPONENTS = components()
 
 # one representative per mechanism, used for pairs in the quick tier and triples in the thorough tier
 REDUCED = ['i1', 'i2l', 'i3', 'dn', 'dx', 'm0', 'mab', 'rx', 'b35', 'r1', 'rs', 'sn', 'su', 'sw', 'sa', 'sr', 'o1', 'or',
-           'p_at3', 'p_atn', 'p_shm1', 'p_al2', 'p_al4i', 'p_em4', 'p_d0', 'eos']
+           'p_at3', 'p_atn', 'p_shm1', 'p_shm2d', 'p_al2', 'p_al4i', 'p_em4', 'p_d0', 'eos']
 
 
 def make_decl(names, opts=None, wrapper='a', name='K'):
